@@ -1,6 +1,6 @@
 PROPERTY = "C03"
 ENCODED = ["linux::ptrace_dumper::PtraceDumper::{suspend_thread,suspend_threads,resume_thread,resume_threads,continue_process}", "ptrace_dumper::ptrace_detach", "<PtraceDumper as Drop>::drop"]
-BOUNDS = {"threads": "1 (14 scripts), 2 (2 scripts), 3 (1 script); thread ids symbolic and distinct",
+BOUNDS = {"threads": "1 (14 scripts), 2 (2 scripts), 3 (1 script); thread ids concrete and distinct",
           "per-thread script": "attach ok/ESRCH; up to 4 waitpid outcomes from {stopped by SIGSTOP, stopped by another signal (symbolic choice of signal), EINTR, exited, ECHILD}; getregs ok / null stack pointer / error",
           "exit paths": "drop only; resume_threads then drop"}
 OUTSIDE = ["real interleavings of signal arrival with attach, group-stop vs tracing-stop, the kernel's signal queues (the stubs encode the ptrace(2)/wait(2) man-page contract)",
